@@ -125,8 +125,8 @@ func c05run(out *rec.Out, c c05case, rng *rec.Rng, stats map[string]int) {
 	for k, v := range vars {
 		anyVars[k] = v
 	}
-	if rng.Intn(2) == 0 {
-		g.ShuffleDecl(rng.Intn)
+	if sh := rng.Fork(); sh.Intn(2) == 0 { // forked stream: one draw of the case's stream whatever the graph size
+		g.ShuffleDecl(sh.Intn)
 		stats["shuffled_declaration_order"]++
 	}
 	in, defs, err := eng.Start(g.XML(), anyVars)
